@@ -767,10 +767,13 @@ class SymNumpy:
         self.linalg = _Linalg(self, linalg or {})
         self.extra = dict(extra or {})     # contract stubs supplied by a property module (e.g. allclose as a recorder)
 
-    def exp(self, x):
+    def exp(self, x, out=None):
         if is_arr(x):
-            return SymArr(x.shape, lambda idx, e=x.elem: mkexp(e(idx)))
+            return self._out(SymArr(x.shape, lambda idx, e=x.elem: mkexp(e(idx))), out, "exp")
         return Sc(mkexp(term(x)))
+
+    def expm1(self, x, out=None):
+        return self._out(self.exp(x) - 1, out, "expm1")
 
     def sqrt(self, x):
         if is_arr(x):
@@ -877,16 +880,30 @@ class SymNumpy:
             raise OutsideSubset("numpy.mean options %r" % (kw,))
         return self.average(x, axis=axis)
 
-    def square(self, x):
-        return x * x
+    @staticmethod
+    def _out(r, out, how):
+        """numpy's out=: the result is written into an existing array (frame bookkeeping as for any in-place update) and that array is returned"""
+        if out is None:
+            return r
+        if isinstance(out, tuple) and len(out) == 1:
+            out = out[0]
+        if not is_arr(out) or not is_arr(r) or not same_shape(r.shape, out.shape):
+            raise ShapeObligation("%s(..., out=...): result of shape %s cannot be written into %s" % (how, getattr(r, "shape", "scalar"), getattr(out, "shape", out)))
+        out._mutating("%s(..., out=)" % how)
+        out.elem = r.elem
+        return out
 
-    def multiply(self, a, b): return a * b
-    def add(self, a, b): return a + b
-    def subtract(self, a, b): return a - b
-    def divide(self, a, b): return a / b
+    def square(self, x, out=None):
+        return self._out(x * x, out, "square")
+
+    def multiply(self, a, b, out=None): return self._out(a * b, out, "multiply")
+    def add(self, a, b, out=None): return self._out(a + b, out, "add")
+    def subtract(self, a, b, out=None): return self._out(a - b, out, "subtract")
+    def divide(self, a, b, out=None): return self._out(a / b, out, "divide")
     true_divide = divide
-    def negative(self, a): return -a
-    def power(self, a, b): return a ** b
+    def negative(self, a, out=None): return self._out(-a, out, "negative")
+    def power(self, a, b, out=None): return self._out(a ** b, out, "power")
+    def reciprocal(self, a, out=None): return self._out(1 / a, out, "reciprocal")
 
     def transpose(self, x, axes=None):
         return x.transpose(axes) if axes is not None else x.T
